@@ -4,6 +4,7 @@ set -e
 cd "$(dirname "$0")"
 export CARGO_NET_OFFLINE=true
 mkdir -p .cache evidence
+python3 -c "import sys; sys.path.insert(0, '.'); from vlib import srcscan; srcscan.write_current()"
 (cd coq && ./regen.sh && timeout 1500 make -j16 >/dev/null)
 sh coq/extract/build.sh "$PWD/.cache/extract" >/dev/null
 cp /repo/Cargo.lock harness/Cargo.lock
